@@ -1925,7 +1925,7 @@ func normalise(repo string, vocab map[string]bool, decls *refDecls) (*normInfo, 
 	nRen := 0
 	if decls != nil {
 		r, _ := computeRenames(pkgs, decls)
-		nRen = len(r)
+		nRen = len(r) + len(computeConversions(pkgs, decls))
 	}
 	if len(nf) == 0 && len(localClosures(pkgs)) == 0 && !hasClosureTables(pkgs) && nRen == 0 {
 		return nil, nil
@@ -1950,12 +1950,20 @@ func normalise(repo string, vocab map[string]bool, decls *refDecls) (*normInfo, 
 			return info, fmt.Errorf("copy does not type-check after putting names back: %v", err)
 		}
 		ren, notes := computeRenames(pkgs, decls)
-		if len(ren) == 0 {
-			break
-		}
 		N := &normaliser{pkgs: pkgs, info: info, edits: map[string][]textEdit{}}
 		if len(pkgs) > 0 {
 			N.fset = pkgs[0].Fset
+		}
+		if len(ren) == 0 {
+			// nothing (more) was merely renamed: methods that were turned into functions get their receiver back
+			for _, cv := range computeConversions(pkgs, decls) {
+				if conversionEdits(N, pkgs, cv) {
+					notes = append(notes, cv.note)
+				}
+			}
+			if len(N.edits) == 0 {
+				break
+			}
 		}
 		renameEdits(N, pkgs, ren)
 		for fn, eds := range N.edits {
@@ -2374,6 +2382,14 @@ func fixUnusedImports(dir, errText string) bool {
 		}
 		// replace an optional alias by the blank identifier
 		pre := strings.TrimRight(l[:q], " \t")
+		if strings.TrimSpace(pre) == "import" {
+			// `import "x"` on one line
+			lines[line-1] = pre + " _ " + l[q:]
+			if os.WriteFile(file, []byte(strings.Join(lines, "\n")), 0644) == nil {
+				fixed = true
+			}
+			continue
+		}
 		k := strings.LastIndexAny(pre, " \t;")
 		head := pre[:k+1]
 		if strings.HasSuffix(strings.TrimSpace(head), "import") || strings.TrimSpace(head) == "" {
